@@ -1026,32 +1026,28 @@ def rule_greenlet(repo):
         raise AnalysisError(f"{FN}: constraint loop not found")
     lp = lp[0]
     x, y = [norm(e) for e in lp.target.elts]
-    # abstractly evaluate the loop body over the 4 membership cases
+    # evaluate the loop concretely over the 4 membership cases (and over two constraints, so that loop control matters)
+    from sa.listwalk import ListWalk
     bad = None
     for xin in (False, True):
         for yin in (False, True):
-            env = {x: 'X', y: 'Y', 'greenlet_upblks': (('X',) if xin else ()) + (('Y',) if yin else ()),
-                   'blk_greenlet_mapping': Obj('map')}
-
-            class E(Evaluator):
-                def ev_Subscript(self, e):
-                    if norm(e.value) == 'blk_greenlet_mapping':
-                        return 'W' + str(self.ev(e.slice))
-                    raise AnalysisError(f"subscript outside domain: {norm(e)}")
-            ev = E(env, arith=False)
-            out = []
-            for s in lp.body:
-                if isinstance(s, ast.Expr) and isinstance(s.value, ast.Call) and norm(s.value.func) == 'new_constraints.add':
-                    out.append(ev.ev(s.value.args[0]))
-                else:
-                    ev._block([s])
+            env = {'all_constraints': [('X', 'Y'), ('P', 'Q')], 'greenlet_upblks': set((('X',) if xin else ()) + (('Y',) if yin else ())),
+                   'blk_greenlet_mapping': {'X': 'WX', 'Y': 'WY'}, 'new_constraints': set()}
+            w = ListWalk(set(), env=env, budget=2000)
+            try:
+                w.block([lp])
+            except AnalysisError as e:
+                raise AnalysisError(f"{FN}: {e}")
+            except Exception as e:          # noqa: BLE001 -- the loop itself fails on this case (e.g. a wrapped block looked up again)
+                w.env['new_constraints'] = {(f"raises {e.__class__.__name__}", str(e))}
             r.evaluations += 1
-            want = (('WX' if xin else 'X'), ('WY' if yin else 'Y'))
-            if out != [want] and bad is None:
+            out = sorted(w.env['new_constraints'])
+            want = sorted([(('WX' if xin else 'X'), ('WY' if yin else 'Y')), ('P', 'Q')])
+            if out != want and bad is None:
                 bad = (xin, yin, out, want)
     cons = f"for ({x}, {y}) in all_constraints: remap wrapped ends; new_constraints.add(({x}, {y}))"
     if bad:
-        r.bad(m, FN, cons, f"with {x} wrapped={bad[0]} and {y} wrapped={bad[1]} the constraint becomes {bad[2]} instead of [{bad[3]}]: "
+        r.bad(m, FN, cons, f"with {x} wrapped={bad[0]} and {y} wrapped={bad[1]} the constraints (X, Y), (P, Q) become {bad[2]} instead of {bad[3]}: "
               f"an edge between two greenlet-wrapped blocks points at a vertex that no longer exists and is dropped by every scheduler", lp.lineno)
     else:
         r.ok(m, FN, cons)
@@ -1348,8 +1344,13 @@ def rule_constraint_entry(repo):
     for cls in ('U', 'RD', 'WR', 'ValueConstraint'):
         tags[cls] = (lambda v, cls=cls: isinstance(v, Obj) and cls in kinds[v.tag])
     tags['(RD, WR)'] = tags['(WR, RD)'] = lambda v: isinstance(v, Obj) and v.tag in ('RD', 'WR')
-    for vk in ('RD', 'WR'):
-        for left_is_value in (True, False):
+    # simple constants bound before the loop are visible in every iteration (and carry over between iterations)
+    pre_env = {}
+    for st in f.body[:f.body.index(loops[0])]:
+        if isinstance(st, ast.Assign) and len(st.targets) == 1 and isinstance(st.targets[0], ast.Name) and isinstance(st.value, ast.Constant):
+            pre_env[st.targets[0].id] = st.value.value
+    for vk, left_is_value, first_left in [(a, b, c) for a in ('RD', 'WR') for b in (True, False) for c in (None, True, False)]:
+        if True:
             rec = []
 
             def hook(ev, call, rec=rec):
@@ -1369,16 +1370,59 @@ def rule_constraint_entry(repo):
                     return ()
                 return NotImplemented
             V, Ub = Obj(vk, var='X'), Obj('U', func='BLK')
-            env = {a0: V if left_is_value else Ub, a1: Ub if left_is_value else V, aeq: False}
+            env = dict(pre_env)
             ev = Evaluator(env, arith=True, isinstance_tags=tags, call_hook=hook, leaf=leaf)
+            if first_left is not None:
+                # an earlier constraint of the same add_constraints(...) call: loop-carried state must not leak into the next one
+                V0, U0 = Obj('RD', var='P'), Obj('U', func='Q')
+                ev.env.update({a0: V0 if first_left else U0, a1: U0 if first_left else V0, aeq: False})
+                ev.run(loops[0].body)
+                rec.clear()
+            ev.env.update({a0: V if left_is_value else Ub, a1: Ub if left_is_value else V, aeq: False})
             out = ev.run(loops[0].body)
             r.evaluations += 1
             want_sign = 1 if left_is_value else -1
             spelled = f"{vk}(x) < U(b)" if left_is_value else f"U(b) < {vk}(x)"
+            if first_left is not None:
+                spelled += f" after {'RD(p) < U(q)' if first_left else 'U(q) < RD(p)'} in the same call"
             ok = out[0] == 'fall' and len(rec) == 1 and rec[0][0].endswith(f"{vk}_U_constraints") and rec[0][1] == 'X' and rec[0][2] == (want_sign, 'BLK')
             (r.ok if ok else r.bad)(m, fq, f"{spelled} -> {vk}_U_constraints[x] gets ({want_sign:+d}, b)",
                                     *([] if ok else [f"`{spelled}` is recorded as {rec if rec else out}: GenDAGPass reads sign +1 as 'the block accessing x runs "
                                                      f"before b' -- the constraint is built the wrong way round (or under the wrong table / key)", f.lineno]))
+    # the tables the constraints are recorded in are separate objects: `a = b = defaultdict(set)` makes RD and WR constraints one
+    # table (every WR(x) < U(b) is then also applied to the readers of x)
+    n_tab = 0
+    for k in range(1, 8):
+        rel = f'pymtl3/dsl/ComponentLevel{k}.py'
+        if not repo.exists(rel):
+            continue
+        dm = repo.mod(rel)
+        for name, g_ in dm.methods(f'ComponentLevel{k}').items():
+            for st in ast.walk(g_):
+                if not isinstance(st, ast.Assign):
+                    continue
+                tabs = [t for t in st.targets if isinstance(t, ast.Attribute) and isinstance(t.value, ast.Attribute) and t.value.attr == '_dsl']
+                if not tabs:
+                    continue
+                v = st.value
+                mutable = isinstance(v, (ast.Dict, ast.Set, ast.List, ast.ListComp, ast.DictComp, ast.SetComp)) or \
+                    (isinstance(v, ast.Call) and norm(v.func).split('.')[-1] in ('dict', 'set', 'list', 'defaultdict', 'deque', 'OrderedDict'))
+                if not mutable:
+                    # a table bound to another table of the same object is the same aliasing, spelled in two statements
+                    if isinstance(v, ast.Attribute) and isinstance(v.value, ast.Attribute) and v.value.attr == '_dsl' and \
+                            norm(v.value.value) == norm(tabs[0].value.value) and name == '__new__':
+                        r.bad(dm, f"ComponentLevel{k}.{name}", norm(st), f"`{norm(tabs[0])}` is bound to the object of `{norm(v)}`: what is recorded in one "
+                              f"table appears in the other", st.lineno)
+                    continue
+                n_tab += 1
+                if len(st.targets) > 1:
+                    r.bad(dm, f"ComponentLevel{k}.{name}", norm(st)[:100], f"{' and '.join(norm(t) for t in st.targets)} are ONE {norm(v)} object: what is "
+                          f"recorded in one table appears in the other (RD constraints applied to writers and vice versa, update blocks listed as "
+                          f"update_ff blocks, ...)", st.lineno)
+                else:
+                    r.ok(dm, f"ComponentLevel{k}.{name}", f"{norm(st.targets[0])} = fresh {norm(v)[:30]}", nontrivial=False)
+    if n_tab < 20:
+        raise AnalysisError(f"per-component tables created in ComponentLevel*: found {n_tab}, expected at least 20")
     # operand normalisation in GenDAGPass._process_methods
     gm = repo.mod(GENDAG)
     g = gm.get_func('GenDAGPass._process_methods')
@@ -1444,7 +1488,7 @@ def rule_constraint_entry(repo):
                                 *([] if ok else [f"inside the loop over the equivalence class the exported pair must be {want}: the class member "
                                                  f"(the top-level callee port's method) has to appear in the pair, otherwise the open-loop pass "
                                                  f"cannot map the constraint to a callee and drops it", c.lineno]))
-    r.require_floor(12)
+    r.require_floor(18)
     return r
 
 
@@ -1618,7 +1662,32 @@ def rule_openloop_vertices(repo):
                 for k, val, n in entries:
                     if val == v and k not in (f"get_raw_method({v})", f"{v}.method"):
                         r.bad(m, fq, f"{M}[{norm(n.targets[0].slice)}] = {v}", f"the key `{k}` is not the raw function of `{v}`", n.lineno)
-    r.require_floor(5)
+    # position maps: `{ key: i for i, x in enumerate(L) }` gives the position of an element of L only if the key is the element
+    # itself -- a name / repr of it is shared by same-named blocks of two instances of one class
+    n_maps = 0
+    for n in ast.walk(f):
+        if isinstance(n, ast.Assign) and isinstance(n.value, ast.DictComp) and len(n.value.generators) == 1:
+            g = n.value.generators[0]
+            if isinstance(g.iter, ast.Call) and norm(g.iter.func) == 'enumerate' and isinstance(g.target, ast.Tuple) and len(g.target.elts) == 2 \
+                    and norm(n.value.value) == norm(g.target.elts[0]):
+                n_maps += 1
+                elem = norm(g.target.elts[1])
+                name = norm(n.targets[0])
+                ok = norm(n.value.key) == elem
+                (r.ok if ok else r.bad)(m, fq, f"{name} = position of every element of {norm(g.iter.args[0])}, keyed by `{norm(n.value.key)}`",
+                                        *([] if ok else [f"the position map is keyed by `{norm(n.value.key)}` instead of the element `{elem}`: two update blocks with the "
+                                                         f"same name (two instances of one class) collide, a wrapped method then runs the schedule up to the wrong "
+                                                         f"block and a block ordered after the method runs before it", n.lineno]))
+                if ok:
+                    for u in ast.walk(f):
+                        if isinstance(u, ast.Subscript) and norm(u.value) == name and isinstance(u.ctx, ast.Load):
+                            k = u.slice
+                            bad_key = isinstance(k, ast.Attribute) and k.attr.startswith('__') or (isinstance(k, ast.Call) and norm(k.func) in ('repr', 'str', 'id'))
+                            if bad_key:
+                                r.bad(m, fq, f"{name}[{norm(k)}]", f"looked up by `{norm(k)}` although the map is keyed by the elements themselves", u.lineno)
+    if n_maps < 1:
+        raise AnalysisError(f"{fq}: the position map of the method-free schedule was not found")
+    r.require_floor(6)
     return r
 
 
@@ -1752,6 +1821,14 @@ def _m(name, file, old, new, rule=None, count=1):
 
 
 MUTANTS = [
+    _m('rd-and-wr-constraint-tables-are-one-object', L2, "    inst._dsl.RD_U_constraints = defaultdict(set)\n    inst._dsl.WR_U_constraints = defaultdict(set)\n", "    inst._dsl.RD_U_constraints = inst._dsl.WR_U_constraints = defaultdict(set)\n", 'R-C02-constraint-entry'),
+    dict(name='constraint-sign-default-hoisted-out-of-loop', rule='R-C02-constraint-entry', edits=[
+        dict(file=L2, old="        sign = 1 # RD(x) < U is 1, RD(x) > U is -1\n", new="", count=1),
+        dict(file=L2, old="    for (x0, x1, is_equal) in args:\n", new="    sign = 1\n    for (x0, x1, is_equal) in args:\n", count=1)]),
+    dict(name='openloop-position-map-keyed-by-block-name', rule='R-C02-openloop-vertices', edits=[
+        dict(file=OPENLOOP, old="    mapping = { x : i for i, x in enumerate( schedule_no_method ) }\n", new="    mapping = { x.__name__ : i for i, x in enumerate( schedule_no_method ) }\n", count=1),
+        dict(file=OPENLOOP, old="        map_next_func = mapping[ schedule[next_func] ]\n", new="        map_next_func = mapping[ schedule[next_func].__name__ ]\n", count=1)]),
+    _m('greenlet-second-end-not-remapped-after-first', GREEN, "        x = blk_greenlet_mapping[ x ]\n", "        new_constraints.add( (blk_greenlet_mapping[ x ], y) )\n        continue\n", 'R-C02-greenlet'),
     _m('openloop-callees-by-parent-object', OPENLOOP, "      lambda x: isinstance(x, CalleePort) and x.get_host_component() is top )", "      lambda x: isinstance(x, CalleePort) and x.get_parent_object() is top )", 'R-C02-openloop-vertices'),
     _m('call-base-not-visited', ASTH, "        self.visit( node )\n        return None, None\n", "        return None, None\n", 'R-C02-visitor', count=2),
     _m('slice-bounds-of-call-result-not-visited', ASTH, "    if not obj_name:\n      self.visit( node.slice ) # f( s.a )[ s.i : s.i+4 ] still reads s.i\n      return\n", "    if not obj_name:  return\n", 'R-C02-visitor'),
